@@ -231,7 +231,8 @@ class CartesianGrid(StructuredGrid):
         if 2 in self._stepDims[0]:
             # the pitch is the spacing in the x-y plane: the axial step of a 3-D grid is kept
             unitSteps[2] = self._unitSteps[2]
-        self._unitSteps = unitSteps[self._stepDims]
+        # one row and one column per step-defined dimension (a bounds-defined z takes no part in the dot product)
+        self._unitSteps = unitSteps[self._stepDims][:, self._stepDims[0]]
         newOffsetX = self._offset[0] * xw / xwOld
         newOffsetY = self._offset[1] * yw / ywOld
         self._offset = np.array((newOffsetX, newOffsetY, self._offset[2]))
